@@ -115,6 +115,58 @@ class Collector:
             self.failures.append((check, witness, f"{what} {_short(r1[1])} vs {_short(b)}"))
 
 
+class LargeCollector(Collector):
+    """Collector of the "large cross degree" family: the clauses of the check_* functions are
+    evaluated unchanged, but reported under their own stable names
+        <method>/definition | subblock           ->  <method>/large-cross-degree
+        <method>/definition-X | subblock-X | X   ->  <method>/large-cross-degree-X
+    and a failing array comparison names the worst entry (the arrays are long)."""
+    SUF = "large-cross-degree"
+
+    def _name(self, check):
+        meth, _, clause = check.partition("/")
+        for pre in ("definition", "subblock"):
+            if clause == pre:
+                return f"{meth}/{self.SUF}"
+            if clause.startswith(pre + "-"):
+                clause = clause[len(pre) + 1:]
+                break
+        return f"{meth}/{self.SUF}-{clause}"
+
+    @staticmethod
+    def _worst(got, exp):
+        try:
+            g = np.asarray(got, dtype=float)
+            e = np.asarray(exp, dtype=float)
+            if g.shape != e.shape or g.ndim == 0:
+                return ""
+            with np.errstate(all="ignore"):
+                bad = ~np.isclose(g, e, rtol=RTOL, atol=ATOL, equal_nan=True)
+            if not bad.any():
+                return ""
+            dev = np.where(bad, np.abs(np.nan_to_num(g - e, nan=np.inf, posinf=np.inf, neginf=np.inf)), -1.0)
+            i = np.unravel_index(int(np.argmax(dev)), g.shape)
+            return (f" [{int(bad.sum())} of {g.size} entries differ; worst at index {tuple(int(x) for x in i)}: "
+                    f"got {g[i]!r} expected {e[i]!r}]")
+        except Exception:            # noqa
+            return ""
+
+    def expect(self, check, witness, res, exp, rtol=RTOL):
+        n0 = len(self.failures)
+        super().expect(self._name(check), witness, res, exp, rtol)
+        if len(self.failures) > n0 and res[0] == "ok" and exp is not UNDEF:
+            ch, w_, d = self.failures[-1]
+            self.failures[-1] = (ch, w_, d + self._worst(res[1], exp))
+
+    def same(self, check, witness, r1, r2, transform=None, what=""):
+        n0 = len(self.failures)
+        super().same(self._name(check), witness, r1, r2, transform, what)
+        if len(self.failures) > n0 and r1[0] == "ok" and r2[0] == "ok":
+            ch, w_, d = self.failures[-1]
+            b = transform(r2[1]) if transform is not None else r2[1]
+            self.failures[-1] = (ch, w_, d + self._worst(r1[1], b))
+
+
 def build_net(A, directed, w, L):
     from pyunicorn.core import InteractingNetworks
     with quiet():
@@ -738,7 +790,282 @@ def run_ccn_task(task):
 def run_task(task):
     if task["kind"] == "ccn":
         return run_ccn_task(task)
+    if task["kind"] == "large":
+        return run_large_task(task)
     return run_graph_task(task)
+
+
+# ------------------------------------------------------------------------------------ large cross degree family
+
+# cross degrees just below / at / above the boundaries of 8-bit and 9-bit counters (127, 255,
+# 256, 257: k(k-1)/2 passes 32767 between 256 and 257) and around 300
+LARGE_TARGETS = (126, 127, 128, 254, 255, 256, 257, 258, 299, 300, 301)
+LARGE_TARGETS_2 = (126, 127, 128, 254, 255, 256, 257, 258)
+SPARSE_TWINS = ("cross_local_clustering", "cross_global_clustering", "cross_transitivity")
+
+
+def _bernoulli_block(rng, m, n, p, symmetric):
+    B = (rng.random_sample((m, n)) < p).astype(np.int8)
+    if symmetric:
+        B = np.triu(B, 1)
+        B = B + B.T
+    return B
+
+
+def _prescribed_rows(rng, degs, n):
+    """0/1 matrix len(degs) x n whose i-th row has exactly degs[i] ones at random places."""
+    B = np.zeros((len(degs), n), dtype=np.int8)
+    for i, k in enumerate(degs):
+        B[i, rng.choice(n, size=int(k), replace=False)] = 1
+    return B
+
+
+def gen_large(gen):
+    """Deterministic network of the family from its generator record `gen`:
+      layout 1: first group P = one node per target cross degree (LARGE_TARGETS, |Q|-1, |Q|)
+                plus three nodes of cross degree 0, 1 and 2..6; second group Q of 305..430 nodes
+      layout 2: every node of the first group P (310..340 nodes) has a cross degree from
+                LARGE_TARGETS_2 or |Q| (cyclically), Q has 262..285 nodes: more than 65535
+                cross links, cross degrees of the Q-nodes around 255
+    plus 8..39 nodes in neither group, Bernoulli links inside the groups (densities dens_p,
+    dens_q) and a sparse Bernoulli background (p_bg) to / among the remaining nodes; node
+    numbers are a random permutation (the lists are not ascending).  Directed: the prescribed
+    degrees are the cross out-degrees; the cross in-degrees get the same multiset in another
+    random assignment."""
+    rng = np.random.RandomState(gen["gseed"])
+    directed = bool(gen["directed"])
+    und = not directed
+    if gen["layout"] == 1:
+        n2 = int(rng.randint(305, 431))
+        degs = list(LARGE_TARGETS) + [n2 - 1, n2, 0, 1, int(rng.randint(2, 7))]
+        m1 = len(degs)
+    else:
+        n2 = int(rng.randint(262, 286))
+        m1 = int(rng.randint(310, 341))
+        base = list(LARGE_TARGETS_2) + [n2]
+        degs = [base[i % len(base)] for i in range(m1)]
+    n_rest = int(rng.randint(8, 40))
+    N = m1 + n2 + n_rest
+    perm = rng.permutation(N)
+    P, Q = perm[:m1], perm[m1:m1 + n2]
+    A = _bernoulli_block(rng, N, N, gen["p_bg"], und)
+    np.fill_diagonal(A, 0)
+    Bp = _bernoulli_block(rng, m1, m1, gen["dens_p"], und)
+    Bq = _bernoulli_block(rng, n2, n2, gen["dens_q"], und)
+    np.fill_diagonal(Bp, 0)
+    np.fill_diagonal(Bq, 0)
+    A[np.ix_(P, P)] = Bp
+    A[np.ix_(Q, Q)] = Bq
+    kout = rng.permutation(degs)
+    Bout = _prescribed_rows(rng, kout, n2)
+    A[np.ix_(P, Q)] = Bout
+    if directed:
+        kin = rng.permutation(degs)
+        A[np.ix_(Q, P)] = _prescribed_rows(rng, kin, n2).T
+    else:
+        kin = kout
+        A[np.ix_(Q, P)] = Bout.T
+    # node weights
+    if gen["wkind"] == "balanced":
+        # integer weights with W_P == W_Q exactly (sums of small integers are exact in float64)
+        w = rng.randint(1, 4, size=N).astype(float)
+        WQ = int(w[Q].sum())
+        wp = np.full(m1, WQ // m1, dtype=np.int64)
+        wp[:WQ - int(wp.sum())] += 1
+        for _ in range(4 * m1):                      # move unit weights around, keeping w > 0
+            a, b = rng.randint(0, m1, size=2)
+            if wp[a] > 1:
+                wp[a] -= 1
+                wp[b] += 1
+        w[P] = wp
+    else:
+        w = np.round(rng.uniform(0.3, 2.5, size=N), 6)
+    L = None
+    if gen.get("with_L"):
+        L = np.round(rng.uniform(0.4, 3.0, size=(N, N)), 6)
+        if und:
+            L = np.triu(L, 1)
+            L = L + L.T
+        L = L * (A != 0)
+    return {"A": A.astype(np.int8), "directed": directed, "w": w, "L": L, "N": N,
+            "P": [int(x) for x in P], "Q": [int(x) for x in Q],
+            "kout": [int(x) for x in kout], "kin": [int(x) for x in kin]}
+
+
+def check_huge_sparse(col, gen, wit):
+    """Cross degree above 32767: only the sparse sub-block extraction can be evaluated within
+    the memory bound (every other method starts from the dense N x N adjacency matrix).
+    Star-like network given as a sparse matrix: hub 0 linked to k > 32767 nodes of Q."""
+    import scipy.sparse as sps
+    from pyunicorn.core import InteractingNetworks
+    rng = np.random.RandomState(gen["gseed"])
+    k = 32768 + int(rng.randint(1, 300))
+    n2 = k + int(rng.randint(5, 60))
+    N = 3 + n2
+    Q = np.arange(3, N)
+    nb = rng.choice(Q, size=k, replace=False)
+    rows = np.concatenate([np.zeros(k, dtype=np.int64), np.full(5, 1), np.full(1, 2)])
+    cols = np.concatenate([nb, rng.choice(Q, size=5, replace=False), rng.choice(Q, size=1)])
+    ring = Q[:-1], Q[1:]                                   # a path among the Q-nodes
+    rows = np.concatenate([rows, ring[0]])
+    cols = np.concatenate([cols, ring[1]])
+    M = sps.coo_matrix((np.ones(len(rows), dtype=np.int8), (rows, cols)), shape=(N, N))
+    M = ((M + M.T) > 0).astype(np.int8).tocsc()
+    with quiet():
+        net = InteractingNetworks(adjacency=M, directed=False, silence_level=3)
+        P = [0, 1, 2]
+        Ql = [int(x) for x in rng.permutation(Q)]
+        exp = np.zeros((3, n2), dtype=np.int64)
+        pos = {q: j for j, q in enumerate(Ql)}
+        for r_, c_ in zip(rows[:k + 6], cols[:k + 6]):
+            exp[int(r_), pos[int(c_)]] = 1
+        res = col.call(net.cross_adjacency_sparse, P, Ql)
+        col.expect("cross_adjacency_sparse/subblock-above-32767", wit, res, exp)
+        if res[0] == "ok":
+            col.expect("cross_adjacency_sparse/definition-above-32767-row-sums", wit,
+                       ("ok", np.asarray(res[1]).sum(axis=1, dtype=np.int64)), [k, 5, 1])
+
+
+def run_large_part(col, gen, part, P=None, Q=None):
+    """One part of one network of the family; returns (witness, summary)."""
+    if part == "huge-sparse":
+        wit = {"kind": "large", "gen": gen, "part": part}
+        check_huge_sparse(col, gen, wit)
+        return wit, {"part": part}
+    g = gen_large(gen)
+    P = g["P"] if P is None else [int(x) for x in P]
+    Q = g["Q"] if Q is None else [int(x) for x in Q]
+    net = build_net(g["A"], g["directed"], g["w"], g["L"])
+    sp = BlockSpec(g["A"], g["directed"], g["w"], g["L"])
+    wit = {"kind": "large", "gen": gen, "part": part, "N": g["N"], "P": P, "Q": Q}
+    summ = {"family": "large-cross-degree", "gen": gen, "part": part, "N": g["N"], "|P|": len(P), "|Q|": len(Q),
+            "links": int(g["A"].sum()) // (1 if g["directed"] else 2),
+            "cross_links_P_to_Q": sp.number_cross_links(P, Q),
+            "max_cross_degree": int(np.max(sp.cross_degree(P, Q)))}
+    with quiet():
+        if part == "pair":
+            check_internal(col, net, sp, P, dict(wit, P=P, Q=Q))
+            check_internal(col, net, sp, Q, dict(wit, P=Q, Q=P))
+            check_cross(col, net, sp, P, Q, wit, sparse=False, capl=False)
+            check_cross(col, net, sp, Q, P, dict(wit, P=Q, Q=P), sparse=False, capl=False)
+        elif part == "whole":
+            order = [int(x) for x in np.random.RandomState(gen["gseed"] + 7).permutation(g["N"])]
+            check_whole(col, net, sp, order, dict(wit, P=None, Q=None, order="RandomState(gseed+7).permutation(N)"))
+        elif part.startswith("sparse:"):
+            # the pure-Python twins, on a short first list (they need ~1-3 s per node here)
+            check_clustering(col, net, sp, P, Q, wit, sparse=True, only=part.split(":", 1)[1])
+        else:
+            raise ValueError(part)
+    return wit, summ
+
+
+def run_large_task(task):
+    col = LargeCollector()
+    gen, part = task["gen"], task["part"]
+    try:
+        wit, summ = run_large_part(col, gen, part, task.get("P"), task.get("Q"))
+        key = f"large|{json.dumps(gen, sort_keys=True)}|{part}|{task.get('P')}"
+        col.cases.append((key, True, dict(summ, evaluations=col.evals) if task.get("sample") else None))
+    except Exception:
+        col.failures.append(("harness/error", {"task": {"gen": gen, "part": part}}, traceback.format_exc()[-500:]))
+    return col.evals, col.failures, col.cases
+
+
+def large_tasks(tier, seed):
+    """Generator records and parts of the family for one tier / seed."""
+    quick = tier == "quick"
+    rng = np.random.RandomState(seed + 911)
+    tasks = []
+
+    def G(layout, directed, k, **kw):
+        gen = {"layout": layout, "directed": directed, "gseed": 100003 * seed + 1000 * layout + 100 * int(directed) + k,
+               "p_bg": 0.03, "dens_p": 0.3, "dens_q": 0.3, "wkind": "float", "with_L": False}
+        gen.update(kw)
+        return gen
+
+    gens = []
+    if quick:
+        gens.append(G(1, False, 0, dens_q=0.08, p_bg=0.02, with_L=True))
+        gens.append(G(1, False, 1, dens_q=0.92, p_bg=0.05, wkind="balanced"))
+        gens.append(G(1, True, 0, dens_q=0.08, p_bg=0.02, with_L=True))
+        gens.append(G(1, True, 1, dens_q=0.5, p_bg=0.04))
+        gens.append(G(2, False, 0, wkind="balanced" if seed % 2 else "float"))
+        gens.append(G(2, True, 0, dens_p=0.15, dens_q=0.15))
+    else:
+        for k, (dq, pb) in enumerate(((0.05, 0.01), (0.3, 0.03), (0.6, 0.02), (0.95, 0.06), (1.0, 0.03))):
+            gens.append(G(1, False, k, dens_q=dq, p_bg=pb, with_L=(k == 0),
+                          wkind=("balanced" if k % 2 else "float")))
+        for k, (dq, pb) in enumerate(((0.05, 0.01), (0.3, 0.03), (0.7, 0.05))):
+            gens.append(G(1, True, k, dens_q=dq, p_bg=pb, with_L=(k == 0)))
+        for k, (dp, dq) in enumerate(((0.3, 0.3), (0.05, 0.9), (0.95, 0.1))):
+            gens.append(G(2, False, k, dens_p=dp, dens_q=dq, wkind=("balanced" if k % 2 else "float")))
+        for k, (dp, dq) in enumerate(((0.2, 0.2), (0.6, 0.05))):
+            gens.append(G(2, True, k, dens_p=dp, dens_q=dq))
+    for gi, gen in enumerate(gens):
+        tasks.append({"kind": "large", "gen": gen, "part": "pair", "sample": gi in (0, 4), "cost": 3})
+        tasks.append({"kind": "large", "gen": gen, "part": "whole", "cost": 2})
+        if gen["directed"]:
+            continue
+        # pure-Python twins: first lists of one node with a prescribed cross degree
+        g = gen_large(gen)
+        by_deg = {}
+        for p, k in zip(g["P"], g["kout"]):
+            by_deg.setdefault(k, p)
+        degs = sorted(by_deg)
+        if quick:
+            big = [k for k in degs if k >= 256]
+            pick = {m: [big[int(rng.randint(len(big)))]] for m in SPARSE_TWINS}
+        else:
+            pick = {m: [k for k in degs if k >= 126] for m in SPARSE_TWINS}
+            if gen["layout"] == 1:
+                # one longer first list (all prescribed degrees at once) for the transitivity twin
+                tasks.append({"kind": "large", "gen": gen, "part": "sparse:cross_transitivity",
+                              "P": [by_deg[k] for k in degs if k <= 258], "cost": 9})
+        for m in SPARSE_TWINS:
+            for k in pick[m]:
+                tasks.append({"kind": "large", "gen": gen, "part": "sparse:" + m, "P": [by_deg[k]], "cost": 4})
+    if not quick:
+        tasks.append({"kind": "large", "gen": {"gseed": 100003 * seed + 77}, "part": "huge-sparse", "cost": 5})
+    return tasks
+
+
+def oracle_selfcheck(seed):
+    """The vectorised BlockSpec must agree with the pure-Python Spec on small graphs;
+    returns a list of disagreements (harness errors, not findings)."""
+    rng = np.random.RandomState(seed + 5)
+    bad = []
+    one = ["internal_adjacency", "internal_path_lengths", "number_internal_links", "internal_link_density",
+           "internal_degree", "internal_indegree", "internal_outdegree", "internal_average_path_length",
+           "internal_closeness"]
+    two = ["cross_adjacency", "cross_path_lengths", "number_cross_links", "cross_link_density", "cross_degree",
+           "cross_indegree", "cross_outdegree", "total_cross_degree", "cross_degree_density",
+           "cross_average_path_length", "cross_closeness", "average_cross_closeness", "local_efficiency",
+           "global_efficiency"]
+    und1 = ["internal_global_clustering", "internal_betweenness", "nsi_internal_degree",
+            "nsi_internal_local_clustering", "nsi_internal_closeness_centrality"]
+    und2 = ["cross_local_clustering", "cross_global_clustering", "cross_transitivity", "cross_betweenness",
+            "nsi_cross_betweenness", "nsi_cross_degree", "nsi_cross_mean_degree", "nsi_cross_edge_density",
+            "nsi_cross_local_clustering", "nsi_cross_global_clustering", "nsi_cross_transitivity",
+            "nsi_cross_closeness_centrality", "nsi_cross_average_path_length"]
+    for it in range(24):
+        directed = it % 3 == 2
+        n = int(rng.randint(4, 9))
+        A = random_adj(rng, n, float(rng.choice([0.2, 0.4, 0.7])), directed)
+        w = rand_weights(rng, n, "float")
+        L = rand_link_attr(rng, A, directed)
+        a, b = Spec(A, directed, w, L), BlockSpec(A, directed, w, L)
+        perm = [int(x) for x in rng.permutation(n)]
+        k = int(rng.randint(1, n))
+        P, Q = perm[:k], perm[k:]
+        calls = [(f, (P,)) for f in one + ([] if directed else und1)]
+        calls += [(f, (P, Q)) for f in two + ([] if directed else und2)]
+        calls += [(f, (P, Q, True)) for f in ("cross_degree", "cross_path_lengths", "cross_closeness")]
+        for f, args in calls:
+            x, y = getattr(a, f)(*args), getattr(b, f)(*args)
+            ok = (x is y) if (x is UNDEF or y is UNDEF) else _close(y, x, rtol=1e-10)
+            if not ok:
+                bad.append(f"BlockSpec.{f} != Spec.{f} on A={A} directed={directed} P={P} Q={Q}: {y} vs {x}")
+    return bad
 
 
 # ------------------------------------------------------------------------------------ scope
@@ -860,6 +1187,8 @@ def make_tasks(tier, seed):
         lat = np.round(rng.uniform(-80, 80, size=n), 3).tolist()
         lon = np.round(rng.uniform(0, 359, size=n), 3).tolist()
         tasks.append({"kind": "ccn", "A": A, "N1": N1, "lat": lat, "lon": lon})
+    # (g) large cross degrees: networks of a few hundred nodes (own random streams)
+    tasks.extend(large_tasks(tier, seed))
     return tasks
 
 
@@ -896,6 +1225,15 @@ def replay(rep, wit):
     if kind == "ccn":
         check_ccn(col, wit["A"], wit["N1"], wit["lat"], wit["lon"], wit)
         key = "replay-ccn"
+    elif kind == "large":
+        col = LargeCollector()
+        part = wit["part"]
+        if part == "pair" and wit.get("P") is not None:
+            # the witness may name the swapped pair; the part always evaluates both orders
+            run_large_part(col, wit["gen"], part)
+        else:
+            run_large_part(col, wit["gen"], part, wit.get("P"), wit.get("Q"))
+        key = "replay-large"
     else:
         A, directed, w, L = wit["A"], wit["directed"], wit["w"], wit["L"]
         net = build_net(A, directed, w, L)
@@ -933,9 +1271,17 @@ def main():
         replay(rep, wit)
         rep.finish()
         return
+    selfcheck = oracle_selfcheck(args.seed)
+    if selfcheck:
+        print("\n".join(selfcheck[:5]), file=sys.stderr)
+        sys.exit(3)
     tasks = make_tasks(args.tier, args.seed)
-    # heavy tasks first for better balance
-    order = sorted(range(len(tasks)), key=lambda i: -len(tasks[i].get("pairs", [])) * len(tasks[i]["A"]) ** 2)
+    # heavy tasks first for better balance (the large-cross-degree tasks take seconds each)
+    def _cost(t):
+        if t["kind"] == "large":
+            return 1e9 * t.get("cost", 1)
+        return len(t.get("pairs", [])) * len(t["A"]) ** 2
+    order = sorted(range(len(tasks)), key=lambda i: -_cost(tasks[i]))
     tasks = [tasks[i] for i in order]
     nproc = min(8, mp.cpu_count())
     ctx = mp.get_context("fork")
@@ -951,7 +1297,8 @@ def main():
     allfail = []
     for ti, (evals, failures, cases) in enumerate(results):
         for key, nt, sample in cases:
-            rep.case(key, nt, sample=sample if ti % step == 0 else None)
+            keep = ti % step == 0 or (isinstance(sample, dict) and sample.get("family") is not None)
+            rep.case(key, nt, sample=sample if keep else None)
         rep.evaluations += max(evals - len(cases), 0)
         allfail.extend(failures)
     # record the most readable witnesses first (Report keeps the first three per check):
